@@ -310,7 +310,7 @@ func (e *verifC12MEnv) scenario(idx int, a, b *verifC12MLayer) error {
 		e.out.Fail("mounted-layer-stopped-serving", fmt.Sprintf("%s: Check of the mounted layer after the TTL: %v", tag, err))
 	}
 	// everything that is on disk now belongs to A (B unmounted, failed mounts expired)
-	if d := verifC12MDirs(root); len(d) > 2 {
+	if d := verifC12MDirsAtMost(root, 2); len(d) > 2 {
 		e.out.Fail("leak-after-failed-mount", fmt.Sprintf("%s: one layer is mounted but the resolver root holds %v", tag, d))
 	}
 	// ---- release
@@ -325,7 +325,7 @@ func (e *verifC12MEnv) scenario(idx int, a, b *verifC12MLayer) error {
 		e.out.Fail("leak-after-unmount", tag+": a second Unmount of the same mountpoint returned nil")
 	}
 	time.Sleep(verifC12MTTL)
-	if d := verifC12MDirs(root); len(d) != 0 {
+	if d := verifC12MDirsAtMost(root, 0); len(d) != 0 {
 		e.out.Fail("leak-after-unmount", fmt.Sprintf("%s: everything is unmounted and expired but the resolver root holds %v", tag, d))
 	}
 	// ---- and it mounts afresh
@@ -368,10 +368,25 @@ func (e *verifC12MEnv) twice(a *verifC12MLayer) {
 		verifC12MLazyUnmount(mp)
 	}
 	time.Sleep(verifC12MTTL)
-	if d := verifC12MDirs(root); len(d) != 0 {
+	if d := verifC12MDirsAtMost(root, 0); len(d) != 0 {
 		e.out.Fail("double-mount-leaks-layer", fmt.Sprintf("second Mount on a mountpoint in use returned %v; after unmounting everything and the TTL the resolver root still holds %v", err2, d))
 	}
 	e.out.Count("twice")
+}
+
+// verifC12MDirsAtMost polls the resolver root until it holds at most n directories or 5 s have passed:
+// the TTL timers are real, and under machine load an expiry or a directory removal can be late by far
+// more than the sleep above; only what is still there afterwards is a leak.
+func verifC12MDirsAtMost(root string, n int) []string {
+	var d []string
+	for i := 0; i < 50; i++ {
+		d = verifC12MDirs(root)
+		if len(d) <= n {
+			return d
+		}
+		time.Sleep(100 * time.Millisecond)
+	}
+	return d
 }
 
 func TestVerifC12MountTwice(t *testing.T) {
